@@ -182,7 +182,7 @@ def q(s):
 def cmd_text(ws, l):
     t = ws["targets"][l]
     pre = t["pkg"] + "/" if t["pkg"] else ""
-    L = ["printf '%s\\n' " + q(l) + ' >> "$VERIF_TRACE"']
+    L = [": " + q(t["salt"]), "printf '%s\\n' " + q(l) + ' >> "$VERIF_TRACE"']
     if t.get("beh", 0) == 1:
         L.append("exit 3")
     if t.get("beh", 0) == 2:
@@ -743,6 +743,37 @@ def gen_edit(rng, ws, kinds=None):
     if k == "nocache":
         t["nocache"] = not t.get("nocache")
         return ws, [], "toggle no-cache of %s" % l
+    if k in ("flagoff", "flagon", "flagbad"):
+        flags = sorted({c["flag"] for x in ws["targets"].values() for c in x.get("checks", [])})
+        if not flags:
+            return None
+        f = rng.choice(flags)
+        if k == "flagoff":
+            if f not in ws["files"]:
+                return ws, [[f, None]], "destroy external condition %s (raw)" % f
+            del ws["files"][f]
+            return ws, [[f, None]], "destroy external condition %s" % f
+        ws["files"][f] = "ok\n" if k == "flagon" else "no\n"
+        return ws, [], ("establish" if k == "flagon" else "spoil") + " external condition %s" % f
+    if k == "beh":
+        t["beh"] = rng.choice([0, 1, 1, 2]) if t.get("beh", 0) == 0 else 0
+        return ws, [], "behaviour of %s := %d" % (l, t["beh"])
+    if k == "skipout":
+        if t.get("skip"):
+            t["skip"] = []
+            return ws, [], "%s writes all outputs again" % l
+        fo = [o["rel"] for o in t["outs"]]
+        if not fo:
+            return None
+        t["skip"] = [rng.choice(fo)]
+        return ws, [], "%s stops writing %s" % (l, t["skip"][0])
+    if k == "addcheck":
+        flag = "ext/%s.flag" % t["name"]
+        if t.get("checks"):
+            t["checks"] = []
+            return ws, [], "remove checks of %s" % l
+        t["checks"] = [{"flag": flag, "exp": rng.choice([None, "ok\n"])}]
+        return ws, [], "add check to %s" % l
     return None
 
 
@@ -837,6 +868,8 @@ def gen_history(rng, family="mixed", nsteps=None):
             kinds = None
             if family == "alias":
                 kinds = ["viaalias", "viaalias", "realias", "adddep", "content"]
+            if family == "checks":
+                kinds = ["flagoff", "flagoff", "flagon", "flagbad", "beh", "skipout", "addcheck", "content", "salt"]
             e = gen_edit(rng, cur, kinds)
             if e and wf(e[0]):
                 break
